@@ -116,4 +116,162 @@ theorem F_ok (s : Shape) (a b x y : Rat) (ha : 0 < a) (hb : 0 < b) : F s a b x y
   have h2 : (b == 0) = false := by simpa using ne_of_gt hb
   cases s <;> simp [F, degenerate, h1, h2]
 
+theorem codeFrame_eq (c s n e : Rat) :
+    codeFrame c s n e = (-(toFrame c s n e).1, (toFrame c s n e).2) := by
+  simp only [codeFrame, toFrame, Prod.mk.injEq]; exact ⟨by ring, trivial⟩
+
+theorem FvalCode_eq_FvalLocal (sh : Shape) (a b c s n e : Rat) :
+    FvalCode sh a b c s n e = FvalLocal sh a b c s n e := by
+  simp only [FvalCode, FvalLocal, codeFrame_eq, Fval_neg_x]
+
+/-- `toFrame` is inverted by the rotation back -/
+theorem toFrame_inv (c s n e : Rat) (h : c * c + s * s = 1) :
+    n = (toFrame c s n e).1 * c - (toFrame c s n e).2 * s ∧ e = (toFrame c s n e).1 * s + (toFrame c s n e).2 * c := by
+  simp only [toFrame]
+  constructor
+  · have : (n * c + e * s) * c - (-n * s + e * c) * s = n * (c * c + s * s) := by ring
+    rw [this, h, mul_one]
+  · have : (n * c + e * s) * s + (-n * s + e * c) * c = e * (c * c + s * s) := by ring
+    rw [this, h, mul_one]
+
+theorem toFrame_of_image (c s u v : Rat) (h : c * c + s * s = 1) :
+    toFrame c s (u * c - v * s) (u * s + v * c) = (u, v) := by
+  simp only [toFrame]
+  have h1 : (u * c - v * s) * c + (u * s + v * c) * s = u * (c * c + s * s) := by ring
+  have h2 : -(u * c - v * s) * s + (u * s + v * c) * c = v * (c * c + s * s) := by ring
+  rw [h1, h2, h, mul_one, mul_one]
+
+theorem insideRotated_iff (sh : Shape) (a b c s n e : Rat) (h : c * c + s * s = 1) :
+    insideRotated sh a b c s n e ↔ inside sh a b (toFrame c s n e).1 (toFrame c s n e).2 := by
+  constructor
+  · rintro ⟨u, v, hn, he, hin⟩
+    subst hn; subst he
+    rw [toFrame_of_image c s u v h]; exact hin
+  · intro hin
+    obtain ⟨h1, h2⟩ := toFrame_inv c s n e h
+    exact ⟨_, _, h1, h2, hin⟩
+
+theorem onBorderRotated_iff (sh : Shape) (a b c s n e : Rat) (h : c * c + s * s = 1) :
+    onBorderRotated sh a b c s n e ↔ onBorder sh a b (toFrame c s n e).1 (toFrame c s n e).2 := by
+  constructor
+  · rintro ⟨u, v, hn, he, hin⟩
+    subst hn; subst he
+    rw [toFrame_of_image c s u v h]; exact hin
+  · intro hin
+    obtain ⟨h1, h2⟩ := toFrame_inv c s n e h
+    exact ⟨_, _, h1, h2, hin⟩
+
+/-- the rotation preserves the distance from the centre -/
+theorem toFrame_norm (c s n e : Rat) (h : c * c + s * s = 1) :
+    (toFrame c s n e).1 * (toFrame c s n e).1 + (toFrame c s n e).2 * (toFrame c s n e).2 = n * n + e * e := by
+  simp only [toFrame]
+  have : (n * c + e * s) * (n * c + e * s) + (-n * s + e * c) * (-n * s + e * c) = (c * c + s * s) * (n * n + e * e) := by ring
+  rw [this, h, one_mul]
+
+theorem FvalLocal_circle (a b c s n e : Rat) (h : c * c + s * s = 1) :
+    FvalLocal .circle a b c s n e = Fval .circle a b n e := by
+  have := circle_rot a b n e c s h
+  simp only [FvalLocal, toFrame]
+  rw [← this]; congr 1 <;> ring
+
+theorem FvalLocal_half_turn (sh : Shape) (a b c s n e : Rat) :
+    FvalLocal sh a b (-c) (-s) n e = FvalLocal sh a b c s n e := by
+  have e1 : (toFrame (-c) (-s) n e).1 = -(toFrame c s n e).1 := by simp only [toFrame]; ring
+  have e2 : (toFrame (-c) (-s) n e).2 = -(toFrame c s n e).2 := by simp only [toFrame]; ring
+  simp only [FvalLocal, e1, e2, Fval_neg_x, Fval_neg_y]
+
+theorem FvalLocal_quarter_turn_swap (sh : Shape) (hs : sh ≠ .circle) (a b c s n e : Rat) :
+    FvalLocal sh b a (-s) c n e = FvalLocal sh a b c s n e := by
+  have e1 : (toFrame (-s) c n e).1 = (toFrame c s n e).2 := by simp only [toFrame]; ring
+  have e2 : (toFrame (-s) c n e).2 = -(toFrame c s n e).1 := by simp only [toFrame]; ring
+  simp only [FvalLocal, e1, e2]
+  cases sh
+  · exact absurd rfl hs
+  · simp only [Fval, sqr, neg_div, neg_mul_neg]; exact min_comm _ _
+  · simp only [Fval, sqr, neg_div, neg_mul_neg]; ring
+
+theorem toFrame_north (n e : Rat) : toFrame 1 0 n e = (n, e) := by
+  simp [toFrame]
+
+theorem toFrameQuarter_eq (q : Nat) (n e : Rat) :
+    toFrameQuarter q n e = toFrame (quarterCS q).1 (quarterCS q).2 n e := by
+  simp only [toFrameQuarter, quarterCS]
+  split <;> simp [toFrame]
+
+theorem quarterCS_unit (q : Nat) : (quarterCS q).1 * (quarterCS q).1 + (quarterCS q).2 * (quarterCS q).2 = 1 := by
+  simp only [quarterCS]; split <;> norm_num
+
+
+/-! ## receive decisions in closed form -/
+
+theorem recvGBC_deliver_iff (i : RxIn) : Action.deliver ∈ recvGBC i ↔ 0 ≤ i.fEgo := by
+  unfold recvGBC
+  by_cases h : 0 ≤ i.fEgo
+  · simp [h]
+  · simp only [h, if_false, List.nil_append, iff_false]
+    split
+    · simp
+    · split <;> simp
+
+theorem recvGAC_deliver_iff (i : RxIn) : Action.deliver ∈ recvGAC i ↔ 0 ≤ i.fEgo := by
+  unfold recvGAC
+  by_cases h : 0 ≤ i.fEgo
+  · simp [h]
+  · simp only [h, if_false, iff_false]
+    repeat' split
+    all_goals simp
+
+theorem annexD_eq_table (fEgo : Rat) (se : Option (Bool × Rat)) :
+    annexD fEgo se = annexDTable (decide (0 ≤ fEgo)) (sePai se) (seIn se) := by
+  rcases se with _ | ⟨pai, f⟩
+  · by_cases h1 : 0 ≤ fEgo <;> simp [annexD, annexDTable, sePai, seIn, h1]
+  · by_cases h1 : 0 ≤ fEgo <;> by_cases h2 : 0 ≤ f <;> cases pai <;> simp [annexD, annexDTable, sePai, seIn, h1, h2]
+
+theorem recvGBC_eq (i : RxIn) (ho : i.oversize = false) (hp : i.pdrExceeded = false) (hr : 1 < i.rhl) :
+    recvGBC i = (if 0 ≤ i.fEgo then [Action.deliver] else []) ++ fwdActs (annexD i.fEgo i.se) := by
+  have : ¬ i.rhl ≤ 1 := by omega
+  simp only [recvGBC, ho, hp, this, Bool.or_self, decide_false, Bool.false_eq_true, if_false]
+  cases annexD i.fEgo i.se <;> rfl
+
+theorem recvGAC_eq (i : RxIn) (ho : i.oversize = false) (hp : i.pdrExceeded = false) (hr : 1 < i.rhl) :
+    recvGAC i = if 0 ≤ i.fEgo then [Action.deliver] else fwdActs (annexD i.fEgo i.se) := by
+  have hr' : ¬ i.rhl ≤ 1 := by omega
+  by_cases h : 0 ≤ i.fEgo
+  · simp [recvGAC, h]
+  · simp only [recvGAC, h, if_false, ho, hp, Bool.or_self, Bool.false_eq_true, hr', annexD]
+    rcases i.se with _ | ⟨pai, f⟩
+    · rfl
+    · cases pai <;> by_cases h2 : 0 ≤ f <;> simp [h2, fwdActs]
+
+/-- closed forms without side conditions -/
+theorem recvGBC_form (i : RxIn) :
+    recvGBC i = (if 0 ≤ i.fEgo then [Action.deliver] else []) ++
+      (if i.oversize || i.pdrExceeded || decide (i.rhl ≤ 1) then [] else fwdActs (annexD i.fEgo i.se)) := by
+  simp only [recvGBC]
+  cases annexD i.fEgo i.se <;> rfl
+
+theorem recvGAC_form (i : RxIn) :
+    recvGAC i = if 0 ≤ i.fEgo then [Action.deliver]
+      else if i.oversize || i.pdrExceeded then [] else if i.rhl ≤ 1 then [] else fwdActs (annexD i.fEgo i.se) := by
+  by_cases h : 0 ≤ i.fEgo
+  · simp [recvGAC, h]
+  · simp only [recvGAC, h, if_false, annexD]
+    rcases i.se with _ | ⟨pai, f⟩
+    · by_cases h1 : (i.oversize || i.pdrExceeded) = true <;> by_cases h2 : i.rhl ≤ 1 <;> simp [h1, h2, fwdActs]
+    · cases pai <;> by_cases h3 : 0 ≤ f <;> by_cases h1 : (i.oversize || i.pdrExceeded) = true <;>
+        by_cases h2 : i.rhl ≤ 1 <;> simp [h1, h2, h3, fwdActs]
+
+/-- only the conjunction SE_POS_VALID ∧ F(sender) ≥ 0 of the sender PV matters to Annex D -/
+theorem annexD_congr (fEgo : Rat) (se se' : Option (Bool × Rat))
+    (h : (sePai se && seIn se) = (sePai se' && seIn se')) : annexD fEgo se = annexD fEgo se' := by
+  rw [annexD_eq_table, annexD_eq_table]
+  by_cases h1 : 0 ≤ fEgo
+  · simp [annexDTable, h1]
+  · have hd : decide (0 ≤ fEgo) = false := by simp [h1]
+    rw [hd]
+    revert h
+    cases sePai se <;> cases seIn se <;> cases sePai se' <;> cases seIn se' <;> simp [annexDTable]
+
+theorem flatGlue_unit : flatGlue.UnitCS := fun az => quarterCS_unit (az / 90)
+
 end FlexModel.Geo.Area
